@@ -432,14 +432,19 @@ func guarded(w *ndWriter, what string, f func() (int, error)) (int, error) {
 	type res struct {
 		n   int
 		err error
+		p   any
 	}
 	ch := make(chan res, 1)
 	go func() {
-		n, err := f()
-		ch <- res{n, err}
+		var r res
+		defer func() { r.p = recover(); ch <- r }()
+		r.n, r.err = f()
 	}()
 	select {
 	case r := <-ch:
+		if r.p != nil {
+			panic(r.p) // in the caller's goroutine, where the scenario records it
+		}
 		return r.n, r.err
 	case <-time.After(watchdogLimit()):
 		w.Write(Ev{"e": "crash", "msg": fmt.Sprintf("Conn.%s does not return (%v on a transport that never blocks: spinning or deadlocked)", what, watchdogLimit())})
